@@ -70,7 +70,7 @@ package entry
 //@   requires o != nil
 //@   lockrequires held[o.lock] >= 0
 //@   pure
-//@   ensures result == len(o.keys)
+//@   ensures result == len(o.keys) && 0 <= result && result <= 281474976710656
 
 //@ func (*OrderedMap).At
 //@   requires omInv(o)
